@@ -487,6 +487,18 @@ mod e2e {
                 v.push((format!("long target {}+{:?}", n, fill), format!("GET /{} HTTP/1.1\r\nHost: localhost\r\n\r\n", val).into_bytes()));
             }
         }
+        // the form / upload demo endpoints with hostile bodies and queries
+        let mut bad_form = b"POST /form-url-encoded-enctype-post-method HTTP/1.1\r\nContent-Type: application/x-www-form-urlencoded\r\nContent-Length: 4\r\n\r\n".to_vec();
+        bad_form.extend([b'a', b'=', 0xff, 0xfe]);
+        v.push(("urlencoded non-utf8 body".into(), bad_form));
+        for q in ["", "?", "?name=a.txt&lastModified=1&size=2", "?name=a.txt", "?name=%zz&lastModified=x&size=-1", "?a=b#frag", "?name=a@b:c/d&lastModified=1&size=2", "?=&&=", "?name=\u{e9}&lastModified=1&size=2"] {
+            v.push((format!("file-upload initiate {:?}", q), format!("POST /file-upload/initiate{} HTTP/1.1\r\nHost: localhost\r\n\r\n", q).into_bytes()));
+            v.push((format!("form-get {:?}", q), format!("GET /form-get-method{} HTTP/1.1\r\nHost: localhost\r\n\r\n", q).into_bytes()));
+        }
+        for (b, body) in [("xyz", "--xyz\r\nContent-Disposition: form-data; name=\"a\"\r\n\r\nv\r\n--xyz--\r\n"), ("xyz", "--xyz\r\n\r\n--xyz--"), ("xyz", "garbage"), ("----", "------\r\nContent-Disposition: form-data; name=\"a\"\r\n\r\nv\r\n------\r\n"),
+                          ("xyz", "--xyz\r\nContent-Disposition: form-data; name=\"a\"\r\n\r\n\n--xyz--\r\n"), ("xyz", "--xyz\nContent-Disposition: form-data; name=\"a\"\n\n\n--xyz--\n"), ("", "x")] {
+            v.push((format!("multipart boundary {:?} body {:?}", b, body), format!("POST /form-multipart-enctype-post-method HTTP/1.1\r\nContent-Type: multipart/form-data; boundary={}\r\nContent-Length: {}\r\n\r\n{}", b, body.len(), body).into_bytes()));
+        }
         v.push(("non-utf8".into(), vec![0xff, 0xfe, b'G', b'E', b'T', b' ', b'/', b'\r', b'\n']));
         v.push(("zeros".into(), vec![0u8; 64]));
         let mut many = b"GET / HTTP/1.1\r\n".to_vec();
@@ -742,6 +754,10 @@ mod shimtest {
             let want: Vec<u8> = if a as usize >= content.len() { vec![] } else { content[a as usize..std::cmp::min(b as usize + 1, content.len())].to_vec() };
             if got != want { h.hit("shims", "shim_read_file_partially", "FileExt::read_file_partially", &format!("{}-{}", a, b), &format!("{} bytes, expected {}", got.len(), want.len())); }
         }
+        // assumed about url-build-parse: "http://localhost/" ++ x always parses
+        for x in ss.iter().chain(["?a=[", ":@/", "#", "??", "%zz", "a:b@c:d/e?f#g", "//", " "].iter().map(|s| s.to_string()).collect::<Vec<_>>().iter()) {
+            if crate::url::URL::parse(&format!("http://localhost/{}", x)).is_err() { h.hit("shims", "shim_url_localhost_slash", "URL::parse", x, "Err"); }
+        }
         if file_ext::FileExt::get_path_separator() != "/" { h.hit("shims", "shim_separator", "FileExt::get_path_separator", "", ""); }
         let cwd = std::env::current_dir().unwrap();
         if file_ext::FileExt::get_static_filepath("/x").ok() != Some(format!("{}/x", cwd.to_str().unwrap())) { h.hit("shims", "shim_static_filepath", "FileExt::get_static_filepath", "", ""); }
@@ -749,7 +765,19 @@ mod shimtest {
     }
 }
 
+mod probe {
+    use crate::request::Request;
+    pub fn run() {
+        for uri in ["/form-get-method?a=b", "/form-get-method?a=[", "/x?@", "/x?a=b#", "/x?%", "/x?a=%zz", "/x?a=b&&", "/x?#", "/x?a=b#f#g", "/x??", "/x?a=b?c", "//x?a", "/x?a=\u{e9}", "/x? ", "/x?a b", "/form-get-method?a=1%", "/x?=", "/x?&", "/x?a=b;c", "/x?:@/", "/x?a=b#%"] {
+            let r = Request { method: "GET".into(), request_uri: uri.into(), http_version: "HTTP/1.1".into(), headers: vec![], body: vec![] };
+            let q = std::panic::catch_unwind(|| r.get_uri_query());
+            println!("{:?} -> {:?}", uri, q.map(|x| x.map(|o| o.map(|m| m.len()))));
+        }
+    }
+}
+
 pub fn dispatch(args: &[String]) -> i32 {
+    if args.len() > 0 && args[0] == "probe" { probe::run(); return 0; }
     panic::set_hook(Box::new(|_| {}));
     if args.len() < 2 { eprintln!("usage: falsify search <routine> <seed> | replay <routine> <case> <input>"); return 2; }
     let found = match (args[0].as_str(), args[1].as_str()) {
